@@ -332,6 +332,7 @@ class Ctx:
             'queries_discharged': self.queries,
             'solver_s': round(self.solver_s, 2),
             'mir': self.mir_info,
+            **({'mir_dev_profile': self.mir_info_dev} if getattr(self, 'mir_info_dev', None) else {}),
             'known_findings_hit': self.known_hits,
             'unconfirmed_candidates': self.unconfirmed,
             'kani': self.kani,
